@@ -3,8 +3,9 @@
 //@ module verif_enum_actions
 //@ harness e_exec_single kind=enum props=C09 thorough_bound=<<every set of three of the eight names x the same templates, statuses and modes>> bound=<<a directory with three files (three fixed sets covering all eight names) whose names are drawn from {plain, 'a b', it's, new-line, {}, -dash, star*, the non-UTF-8 byte 0xff} x argument templates {}, a{}b, {}{}, x, a literal + and pairs of them x CMD exit status 0 or 3, or a CMD that does not exist x the directory or the three files themselves as starting points x -exec / -execdir, real processes recording their argv and working directory>> label=<<-exec CMD ARGS ; runs CMD once per file in visit order with every {} in every argument replaced by the path (./basename and the parent as working directory for -execdir), every argument one argv element byte for byte; the action is true iff CMD exits 0; find's exit status stays 0>>
 //@ harness e_exec_plus kind=enum props=C08 thorough_bound=<<every set of three of the eight names x -quit position x -exec / -execdir>> bound=<<the same directory of three files (three fixed sets) x an optional -quit after the first, second or third file x -exec / -execdir, real processes>> label=<<-exec CMD {} + passes every path on which the action is reached exactly once, after the fixed arguments, in visit order, also when -quit ends the walk; -execdir batches contain ./basename entries of one directory and run there; the action is always true>>
-//@ harness e_exec_dirs kind=enum props=C08 bound=<<a tree r/{A/{a1,a2},B/{b1},C/{c1,c2}}; -execdir CMD {} + with -mindepth absent, 1 or 2, and -exec CMD {} + over every non-empty ordered selection of up to three of the starting points r/A, r/B, r/C; real processes>> label=<<each -execdir invocation runs in one directory and contains only ./basename entries of that directory; over all invocations every reached file is delivered exactly once, also across several starting points>>
+//@ harness e_exec_dirs kind=enum props=C08 bound=<<a tree r/{A/{a1,a2},B/{b1},C/{c1,c2}}; -execdir CMD {} + with -mindepth absent, 1 or 2, and -exec CMD {} + over every non-empty ordered selection of up to three of the starting points r/A, r/B, r/C, with or without -quit on the first file; real processes>> label=<<each -execdir invocation runs in one directory and contains only ./basename entries of that directory; over all invocations every reached file is delivered exactly once, also across several starting points>>
 //@ harness e_quit_status kind=enum props=C01,C18 bound=<<one or two starting points x an action before -quit that succeeds (-print0) or fails (-fprint /dev/full) on the first entry>> label=<<once -quit is evaluated nothing further is evaluated for that entry or any later entry or starting point, whether or not an earlier action on the same entry failed; the exit status still reports the failure>>
+//@ harness e_delete_vanished kind=enum props=C10 bound=<<a file removed by an earlier -exec rm on the same entry, or deleted twice by ( -delete , -delete ); a non-empty directory as control>> label=<<an entry that cannot be removed (it is already gone, or it is a non-empty directory) makes -delete false for that entry and find's exit status non-zero>>
 //@ harness e_delete kind=enum props=C10 bound=<<a tree with two files, a nested directory with a file, a link to a file, a link to a directory and a link pointing outside, targets outside the tree and a file whose name is not valid UTF-8 x tests {-true, -name 'f*', -type f, -type l, -type d, -name sub, ! -name keep, -type f -empty} x -P / -H>> label=<<find T EXPR -delete removes exactly the entries that -depth EXPR -print reports on an identical tree (a non-empty directory stays and makes the exit status non-zero), never a link's target, and nothing outside>>
 #[cfg(verif_replay)]
 mod verif_enum_actions {
@@ -168,11 +169,13 @@ mod verif_enum_actions {
             for (dir, f) in files { want.push((format!("{rs}/{dir}"), f.to_string())); }
         } else {
             let n = 1 + pick(3);
+            let quit_first = pick(2) == 1; // -quit on the first file of the first starting point: the pending batch still runs
             let mut sel: Vec<usize> = Vec::new();
             for _ in 0..n { let k = pick(3); if sel.contains(&k) { let _ = std::fs::remove_dir_all(&d); kani::assume(false); } sel.push(k); }
             for &k in &sel { args.push(roots_all[k].clone()); }
             args.extend(["-sorted", "-type", "f", "-exec", "sh", "-c", &script, "sh", "{}", "+"].iter().map(|s| s.to_string()));
             for &k in &sel { for (dir, f) in files { if dir == ["A", "B", "C"][k] { want.push((format!("{rs}/{dir}"), f.to_string())); } } }
+            if quit_first { let first = want[0].1.clone(); args.extend(["-name".to_string(), first, "-quit".to_string()]); want.truncate(1); }
         }
         let argv: Vec<&str> = args.iter().map(|s| s.as_str()).collect();
         let (rc, _out) = run(&argv);
@@ -223,6 +226,27 @@ mod verif_enum_actions {
         assert!((rc != 0) == failing, "exit status");
     }
     #[test] fn e_quit_status() { kani::explore(quit_status_body) }
+
+    fn delete_vanished_body() {
+        let d = scratch("delv");
+        let t = d.join("t");
+        std::fs::create_dir_all(t.join("full")).unwrap();
+        std::fs::write(t.join("f"), "").unwrap();
+        std::fs::write(t.join("full/inside"), "").unwrap();
+        let which = pick(3);
+        let ts = t.to_str().unwrap();
+        let args: Vec<&str> = match which {
+            0 => vec!["find", ts, "-name", "f", "-exec", "rm", "{}", ";", "-delete", "-print0"],
+            1 => vec!["find", ts, "-name", "f", "(", "-delete", ",", "-delete", ")", "-print0"],
+            _ => vec!["find", ts, "-name", "full", "-delete", "-print0"],
+        };
+        let (rc, out) = run(&args);
+        let _ = std::fs::remove_dir_all(&d);
+        if rc == 0 || !out.is_empty() { eprintln!("  input find T {:?}: exit {rc}, printed after -delete: {:?}; expected a non-zero exit status and -delete false", &args[2..], String::from_utf8_lossy(&out)); }
+        assert!(rc != 0, "a removal that failed must make the exit status non-zero");
+        assert!(out.is_empty(), "-delete must be false for an entry it could not remove");
+    }
+    #[test] fn e_delete_vanished() { kani::explore(delete_vanished_body) }
 
     fn make_tree(d: &Path) -> PathBuf {
         let t = d.join("t");
